@@ -111,4 +111,44 @@ theorem only_establishment_takes_teids (cfg : Cfg) (w : World) (q : Req) (hq : q
     dsimp only at h'
     exact foldl_drop_teid_only_clears cfg _ w x h'
 
+theorem free_clears (g : Teid.G) (id : Nat) (h : 1 ≤ id) : (Teid.free g id).used (id - 1) = false := by
+  unfold Teid.free
+  rw [if_neg (by omega)]
+  simp
+
+theorem foldl_free_stays_clear : ∀ (ps : List Pdr) (g : Teid.G) (x : Nat), g.used x = false →
+    (ps.foldl (fun g p => if p.chooseTeid then Teid.free g p.tunnelTEID else g) g).used x = false
+  | [], _, _, h => h
+  | p :: rest, g, x, h => by
+    rw [List.foldl_cons]
+    apply foldl_free_stays_clear rest
+    split
+    · cases hb : (Teid.free g p.tunnelTEID).used x with
+      | false => rfl
+      | true => rw [free_only_clears g _ x hb] at h; cases h
+    · exact h
+
+theorem foldl_free_clears : ∀ (ps : List Pdr) (g : Teid.G) (p : Pdr), p ∈ ps → p.chooseTeid = true → 1 ≤ p.tunnelTEID →
+    (ps.foldl (fun g p => if p.chooseTeid then Teid.free g p.tunnelTEID else g) g).used (p.tunnelTEID - 1) = false
+  | [], _, _, hp, _, _ => by cases hp
+  | q :: rest, g, p, hp, hc, h1 => by
+    rw [List.foldl_cons]
+    rcases List.mem_cons.mp hp with rfl | hp
+    · apply foldl_free_stays_clear
+      rw [if_pos hc]
+      exact free_clears g _ h1
+    · exact foldl_free_clears rest _ p hp hc h1
+
+/-- **a Session Deletion returns what the session holds — in every state, whatever preceded** (no envelope): afterwards the session's
+SEID holds no UE address, and every TEID the UP chose for one of its stored PDRs is free again -/
+theorem deletion_returns_address_and_teids (cfg : Cfg) (w : World) (a seid : Nat) (s : Session)
+    (hf : (w.conn a).sessions.find? (·.lseid = seid) = some s) :
+    s.lseid ∉ poolKeys (deleteSession cfg w a seid).1.pool ∧
+    ∀ p ∈ s.pdrs, p.chooseTeid = true → 1 ≤ p.tunnelTEID → (deleteSession cfg w a seid).1.teid.used (p.tunnelTEID - 1) = false := by
+  unfold deleteSession
+  simp only [hf]
+  rw [setConn_pool, setConn_teid]
+  refine ⟨fun hk => (keys_release w.pool w.teid s.lseid s.pdrs _ hk).2 rfl, fun p hp hc h1 => ?_⟩
+  exact foldl_free_clears s.pdrs w.teid p hp hc h1
+
 end Agent
